@@ -236,6 +236,89 @@ theorem C09_reply_effect_visible (s : St) (i : Nat) (m : Msg)
     (step policyAll s (.deliver i)).mirror = m.target := by
   simp [step, hm, hb, hd]
 
+/-! ### refusing diffs while a sync is pending (fix 8336b00) -/
+
+/-- a schedule in which no diff is applied while a full sync is asked for or outstanding:
+    every `deliver` step finds `needSync = false` and `syncVal = none` (what the client
+    guarantees for the syncs its update handlers start; a refused diff is a `deliverSync`). -/
+def RefusesWhilePending : St → List Step → Prop
+  | _, [] => True
+  | s, st :: r =>
+    (match st with
+      | .deliver _ => s.needSync = false ∧ s.syncVal = none
+      | _ => True) ∧ RefusesWhilePending (step policyAll s st) r
+
+/-- the bookkeeping invariant of such schedules: an answer on its way has not been overtaken. -/
+theorem fresh_step (s : St) (st : Step)
+    (hd : match st with
+      | .deliver _ => s.needSync = false ∧ s.syncVal = none
+      | _ => True)
+    (h : s.syncVal.isSome → s.moved = false) :
+    (step policyAll s st).syncVal.isSome → (step policyAll s st).moved = false := by
+  cases st with
+  | change => simpa [step] using h
+  | produce k => simp only [step]; split <;> simpa using h
+  | deliver i =>
+    simp only [step]
+    obtain ⟨_, hs⟩ := hd
+    cases hm : s.inflight[i]? with
+    | none => simpa using h
+    | some m =>
+      simp only
+      split
+      · simp [hs]
+      · simp [policyAll, hs]
+  | deliverSync i =>
+    simp only [step]
+    cases hm : s.inflight[i]? with
+    | none => simpa using h
+    | some m => simpa using h
+  | syncExec =>
+    simp only [step]
+    split
+    · simp
+    · simpa using h
+  | syncApply =>
+    simp only [step]
+    cases hv : s.syncVal with
+    | none => simp [hv] at h ⊢
+    | some v =>
+      simp only [policyAll, Bool.true_and]
+      split <;> simp
+  | syncDrop =>
+    simp only [step]
+    cases hv : s.syncVal with
+    | none => simp [hv] at h ⊢
+    | some v => simp
+  | drift => simpa [step] using h
+  | askSync => simpa [step] using h
+  | reconnect => simp [step]
+
+/-- **C09 (no answer is ever overtaken when diffs are refused while a sync is pending)**:
+    in every such schedule the generation check never has to drop an answer — at every
+    `syncApply` the answer is applied. -/
+theorem C09_no_overtaking_when_pending_refused (l : List Step) :
+    ∀ s, (s.syncVal.isSome → s.moved = false) → RefusesWhilePending s l →
+      ∀ pre post, l = pre ++ .syncApply :: post → ∀ v, (run policyAll s pre).syncVal = some v →
+        (step policyAll (run policyAll s pre) .syncApply).mirror = v := by
+  induction l with
+  | nil => intro s _ _ pre post h; simp at h
+  | cons st r ih =>
+    intro s hf hr pre post h v hv
+    obtain ⟨hd, hr'⟩ := hr
+    cases pre with
+    | nil =>
+      simp only [List.nil_append, List.cons.injEq] at h
+      obtain ⟨rfl, _⟩ := h
+      simp only [run, List.foldl_nil] at hv ⊢
+      have hm : s.moved = false := hf (by simp [hv])
+      simp [step, hv, hm, policyAll]
+    | cons p pre' =>
+      simp only [List.cons_append, List.cons.injEq] at h
+      obtain ⟨rfl, h⟩ := h
+      have := ih (step policyAll s st) (fresh_step s st hd hf) hr' pre' post h v
+      simpa [run] using this (by simpa [run] using hv)
+
 /-- **falling back to `Sync` alone is not enough**: the answer carries the snapshot
     of the moment the server executed it; a diff produced afterwards and applied
     before the answer is overwritten by the late answer — with nothing left in
@@ -265,5 +348,13 @@ example : Quiescent (run policyAll {} [.change, .produce .reply, .change, .produ
     (run policyAll {} [.change, .produce .reply, .change, .produce .push, .deliver 1,
       .syncExec, .syncApply, .deliver 0, .syncExec, .syncApply]).mirror = 2 := by
   unfold Quiescent; decide
+
+/-- non-vacuity: the window of the property, with the diffs refused while the sync is pending. -/
+example : RefusesWhilePending {} [.change, .produce .reply, .change, .produce .push, .deliver 1,
+      .deliverSync 0, .syncExec, .syncApply] ∧
+    (run policyAll {} [.change, .produce .reply, .change, .produce .push, .deliver 1,
+      .deliverSync 0, .syncExec, .syncApply]).mirror = 2 := by
+  refine ⟨?_, by decide⟩
+  simp [RefusesWhilePending, step, policyAll]
 
 end Am.Conv
